@@ -239,10 +239,11 @@ Usable(N, top) == \A i \in Named(N, top) : NameUsable(N, i)
 -----------------------------------------------------------------------------
 (* Shapes: identity-free value of a subtree (for clones and parsed trees)   *)
 
-RECURSIVE ShapeB(_, _, _)
+RECURSIVE ShapeB(_, _, _), ShapeKids(_, _, _, _)
 ShapeB(N, i, d) ==
     [k |-> N[i].k, ns |-> N[i].ns, ln |-> N[i].ln, t |-> N[i].t, u |-> N[i].u, dd |-> N[i].d,
-     kids |-> IF d = 0 THEN <<>> ELSE [j \in 1..Len(N[i].c) |-> ShapeB(N, N[i].c[j], d - 1)]]
+     kids |-> IF d = 0 THEN <<>> ELSE ShapeKids(N, N[i].c, 1, d - 1)]
+ShapeKids(N, kids, j, d) == IF j > Len(kids) THEN <<>> ELSE <<ShapeB(N, kids[j], d)>> \o ShapeKids(N, kids, j + 1, d)
 Shape(N, i) == ShapeB(N, i, Len(N))
 
 \* the same with every run of adjacent text children merged into its first node
@@ -251,13 +252,15 @@ RECURSIVE RunText(_, _, _)
 RunText(N, i, d) ==
     LET nx == NextNorm(N, i) IN
     N[i].t \o (IF d > 0 /\ IsText(N, nx) THEN RunText(N, nx, d - 1) ELSE <<>>)
-RECURSIVE ShapeMB(_, _, _)
+RECURSIVE ShapeMB(_, _, _), ShapeMKids(_, _, _, _)
 ShapeMB(N, i, d) ==
     LET keep == SelectSeq(N[i].c, LAMBDA x : ~Absorbed(N, x)) IN
     [k |-> N[i].k, ns |-> N[i].ns, ln |-> N[i].ln,
+     \* (d < Len(N): not the root of the shape - a single cloned text node is not a run)
      t |-> IF N[i].k = "text" /\ N[i].p # 0 /\ d < Len(N) THEN RunText(N, i, Len(N)) ELSE N[i].t,
      u |-> N[i].u, dd |-> N[i].d,
-     kids |-> IF d = 0 THEN <<>> ELSE [j \in 1..Len(keep) |-> ShapeMB(N, keep[j], d - 1)]]
+     kids |-> IF d = 0 THEN <<>> ELSE ShapeMKids(N, keep, 1, d - 1)]
+ShapeMKids(N, kids, j, d) == IF j > Len(kids) THEN <<>> ELSE <<ShapeMB(N, kids[j], d)>> \o ShapeMKids(N, kids, j + 1, d)
 ShapeMerged(N, i) == ShapeMB(N, i, Len(N))
 
 \* P extends N by a block of fresh nodes that form exactly one new tree rooted at r
